@@ -104,6 +104,7 @@ def write_if_changed(path, text):
 def main(outdir):
     import translate_tables  # noqa: F401  (registers the remaining tables)
     import translate_writes  # noqa: F401
+    import translate_setiter  # noqa: F401
 
     os.makedirs(outdir, exist_ok=True)
     report = {}
